@@ -98,3 +98,9 @@ impl FrameAckQueue {
     }
 }
 
+
+#[cfg(uflow_verif)]
+impl FrameAckQueue {
+    pub fn verif_len(&self) -> usize { self.entries.len() }
+    pub fn verif_capacity(&self) -> usize { self.entries.capacity() }
+}
